@@ -17,7 +17,7 @@ NUMBERS = ("start time, every deadline, period, step_until target (and clock lag
            "range of MonotonicTime/Duration, as total nanoseconds; decided by z3 for every value")
 
 
-def run_prop(prop, groups, tier, jobs, bounds, outside=None, validate=None, only=None, files=None):
+def run_prop(prop, groups, tier, jobs, bounds, outside=None, validate=None, only=None, files=None, extra=None):
     ev = C.Evidence(prop, tier)
     ev.cov["source_sha256"] = C.source_hashes(files or DRIVER_FILES)
     if only:
@@ -29,5 +29,9 @@ def run_prop(prop, groups, tier, jobs, bounds, outside=None, validate=None, only
     if validate is None:
         validate = 24 if tier == "quick" else 120
     rc = DP.run_family(prop, tier, ev, jobs, groups=groups, validate_scripts=validate)
+    if extra:
+        rc2 = extra(ev)
+        if rc2 == C.EXIT_VIOLATION or rc == C.EXIT_OK:
+            rc = rc2 if rc2 != C.EXIT_OK else rc
     ev.write({0: "held on everything explored", 1: "violation", 2: "inconclusive"}[rc])
     return rc
